@@ -3,3 +3,4 @@ import SignalGen.Gen.Scalar
 import SignalGen.Gen.Kernels
 import SignalGen.Gen.Buffer
 import SignalGen.Gen.Xfer
+import SignalGen.Gen.ConvFn
